@@ -1,7 +1,61 @@
 //! Root file header structures for different versions
 
-use crate::root::{error::Result, version::RootVersion};
-use std::io::{Read, Seek, Write};
+use crate::root::{error::Result, flags::ContentFlags, version::RootVersion};
+use std::io::{Read, Seek, SeekFrom, Write};
+
+/// Decide whether the two words after the magic are `<header_size, version>` of an
+/// extended header or `<total_files, named_files>` of a classic V2 header.
+///
+/// `reader` must be positioned right after the two words; the position is restored.
+/// Used by both [`RootVersion::detect`] and [`RootHeader::read`] so that they agree.
+pub(crate) fn is_extended_header<R: Read + Seek>(
+    reader: &mut R,
+    value1: u32,
+    value2: u32,
+) -> Result<bool> {
+    // Extended: value1 = header_size (small), value2 = version (1..=4 exist)
+    if !(16..100).contains(&value1) || !matches!(value2, 1..=4) {
+        return Ok(false);
+    }
+    // A classic V2 manifest with 16..99 files of which 1..4 are named has the same
+    // two words. A classic header is followed directly by blocks whose record
+    // counts add up to total_files and that end exactly at the end of the data.
+    let pos = reader.stream_position()?;
+    let classic = classic_blocks_add_up(reader, value1);
+    reader.seek(SeekFrom::Start(pos))?;
+    Ok(!classic?)
+}
+
+/// Walk V2 blocks (17-byte header, separated arrays) from the current position.
+fn classic_blocks_add_up<R: Read + Seek>(reader: &mut R, total_files: u32) -> Result<bool> {
+    let mut pos = reader.stream_position()?;
+    let end = reader.seek(SeekFrom::End(0))?;
+    let mut records: u64 = 0;
+    while pos < end {
+        if end - pos < 17 {
+            return Ok(false);
+        }
+        reader.seek(SeekFrom::Start(pos))?;
+        let mut hdr = [0u8; 17];
+        reader.read_exact(&mut hdr)?;
+        let count = u64::from(u32::from_le_bytes([hdr[0], hdr[1], hdr[2], hdr[3]]));
+        let flags = u64::from(u32::from_le_bytes([hdr[8], hdr[9], hdr[10], hdr[11]]))
+            | u64::from(u32::from_le_bytes([hdr[12], hdr[13], hdr[14], hdr[15]]))
+            | (u64::from(hdr[16]) << 17);
+        // FileDataID delta + content key (+ name hash) per record
+        let per_record: u64 = if ContentFlags::new(flags).has_name_hashes() {
+            4 + 16 + 8
+        } else {
+            4 + 16
+        };
+        records += count;
+        if records > u64::from(total_files) {
+            return Ok(false);
+        }
+        pos += 17 + count * per_record;
+    }
+    Ok(pos == end && records == u64::from(total_files))
+}
 
 /// Root file header (V2, V3, V4 only - V1 has no header)
 #[derive(Debug, Clone, PartialEq, Eq)]
@@ -226,7 +280,7 @@ impl RootHeader {
         // Detect extended vs classic header:
         // Extended: value1=header_size (16-64), value2=version (1-10), value2 < value1
         // Classic V2: value1=total_files (large), value2=named_files
-        let is_extended_header = (16..100).contains(&value1) && value2 < 10 && value2 < value1;
+        let is_extended_header = is_extended_header(reader, value1, value2)?;
 
         if is_extended_header {
             // Extended header: value1=header_size, value2=version
